@@ -796,6 +796,9 @@ func (p *parser) postfix(e *Expr) *Expr {
 				// type assertion e.(T)
 				ty := p.next()
 				tn := ty.text
+				if ty.kind == "op" && ty.text == "*" {
+					tn = "*" + p.next().text
+				}
 				for p.isOp(".") {
 					p.next()
 					tn += "." + p.next().text
